@@ -12,7 +12,7 @@ Results are merged into <dir>/meta.json under "confirmed" and "checks".
 """
 import json, os, shutil, subprocess, sys, tempfile
 
-REPO = "/repo"
+REPO = os.environ.get("VERIF_REPO", "/repo")
 VERIF = os.path.dirname(os.path.dirname(os.path.abspath(__file__)))
 ENV = dict(os.environ, GOFLAGS="-mod=mod", GOPROXY="off", GOSUMDB="off", GOTOOLCHAIN="local")
 PKGS = ["./authenticode/", "./efi/device/", "./efi/signature/", "./efi/util/", "./efivarfs/", "./pkcs7/"]
